@@ -57,6 +57,26 @@ CLAIMS = {
         "CFG dominance + def-use on the diagnostic filter",
         "CFG is statement-level with exception edges only inside try bodies; string shapes of the comment tests are matched on the normalised source.",
     ),
+    "C14": (
+        "Decides: (R14.1) equal-implies-equal-hash for every value/extension/bound/constraint/signature class, with "
+        "the effective __eq__/__hash__ computed by the dataclass decision table (eq, frozen, unsafe_hash, explicit "
+        "methods, compare=/hash= flags, NamedTuple); (R14.2) substitute_typevars and walk_values mention every "
+        "Value-typed field (following super() calls); (R14.3) MultiValuedValue.vals is built by flattening, "
+        "unite_values/annotate_value de-duplicate through a dict. Idempotence/commutativity/associativity up to "
+        "equality are not decided.",
+        "class-model computation of generated methods + field coverage",
+        "Custom __eq__ bodies are analysed only for direct field comparisons and order-insensitive constructs.",
+    ),
+    "C18": (
+        "Decides: (R18.1) the roles and signs of the three sort_key components; (R18.2) per-name grouping, ascending "
+        "sort by sort_key, first-applicable lookup, concatenation of all applicable values then the default, prefix "
+        "applicability; (R18.3) priority + 1 per extend_config, priority stored on every instance, recursion guard "
+        "dominating the open; (R18.4) every key arm validates or delegates to parse(), every parse() raises on a "
+        "wrong type; (R18.5) command-line instances carry from_command_line=True. The effective value for every "
+        "stack of files follows from these plus the stability of sorted(); that last step is on paper.",
+        "role-based AST patterns + CFG dominance on options.py",
+        "Python's sorted() is stable; TOML parsing is trusted.",
+    ),
     "C12": (
         "Decides: (R12.1) no element of the dispatched domain reaches a failing default (assert False/assert_never) "
         "in the classified dispatch chains, and dispatchers do not fall off their end; (R12.2) NodeVisitors whose "
